@@ -174,6 +174,11 @@ func genC16(t *rapid.T, tier string) (*World, any) {
 	w.Put("crs/regex-assembly/include/inc2.ra", "##!^ p\nqq\nrr\n")
 	w.Put("crs/regex-assembly/include/withflags.ra", "plain\n")
 	w.Put("crs/regex-assembly/include/onlyone.ra", "word\n")
+	if chance(t, 30, "dotfiles") {
+		w.Put("crs/regex-assembly/.gitkeep", "")
+		w.Put("crs/regex-assembly/.942100.ra.swp", "swap\n")
+		w.Put("crs/regex-assembly/include/.gitkeep", "")
+	}
 	w.Put("crs/regex-assembly/exclude/ex-all.ra", "word\n")
 	opts := ProgOpts{Flags: true, PrefixSufx: true, Blocks: true, Cmdline: true, Defs: true, Includes: []string{"inc1", "inc2"}, Pairs: true, Comments: true, MaxLines: 6}
 	targets := []string{"942100-chain1", "942100", "942110", "942120"} // walk order
